@@ -5,6 +5,7 @@ use crate::roles::*;
 pub fn dump(repo: &std::path::Path, args: &[String]) {
     let ix = crate::index::Index::load(&repo.join("derive-ex").join("src")).expect("load");
     println!("files={} fns={} templates={}", ix.files.len(), ix.n_fns, ix.n_templates);
+    println!("canon problems: {:?}", crate::model::init_dynamic_canon(&ix));
     let (roles, reach) = discover(&ix).expect("roles");
     println!("reachable fns={} roles={}", reach.len(), roles.len());
     let filter = args.first().cloned();
